@@ -178,7 +178,6 @@ type ledgerView struct {
 	in *inst
 }
 
-
 func (l ledgerView) NextRound() basics.Round {
 	l.in.enter(seamRead)
 	l.mu.Lock()
